@@ -175,7 +175,7 @@ impl<'a> Gen<'a> {
     }
 
     pub fn str_lit(&mut self) -> Expr {
-        let choices = ["", "a", "b", "abc", "x y", "key", "10", "end", "hello", "é", "a\nb", "q\"uote", "it's", "\\", "0x10", "_id", "9lives"];
+        let choices = ["", "a", "b", "abc", "x y", "key", "10", "end", "hello", "é", "a\nb", "q\"uote", "it's", "\\", "0x10", "_id", "9lives", "\x010", "é9", "\x1b[0m", "\0007"];
         Expr::Str(self.r.pick(&choices).as_bytes().to_vec(), String::new())
     }
 
@@ -1491,6 +1491,21 @@ impl<'a> Gen<'a> {
                 };
                 let a = self.num_expr(1);
                 out.push(Stmt::Call(call("sink", vec![Expr::MethodCall { obj: Box::new(recv), name: "get".into(), args: vec![a], sugar: CallSugar::Parens, targs: None }])));
+                if self.r.chance(1, 3) {
+                    // receivers whose evaluation is observable: a field / index of a proxy whose `__index` logs and hands out
+                    // the record, bare and parenthesised (must be read exactly once)
+                    let h = self.fresh();
+                    let body = Block { stmts: vec![Stmt::Call(call("sink", vec![Expr::str("idx"), name("px_key")])), Stmt::Return(vec![name(&nm)])] };
+                    let f = Expr::Function(Rc::new(FuncBody { params: vec![b("px_self"), b("px_key")], is_vararg: false, vararg_ty: None, generics: None, ret_ty: None, body, attributes: vec![] }));
+                    let proxy = call("setmetatable", vec![Expr::Table(vec![]), Expr::Table(vec![TableItem::Named("__index".into(), f)])]);
+                    out.push(Stmt::Local { names: vec![b(&h)], values: vec![proxy], is_const: false });
+                    self.undeclare(&h);
+                    let k = self.any_key();
+                    let inner = if self.r.bool() { Expr::field(name(&h), "fld") } else { Expr::index(name(&h), k) };
+                    let recv = if self.r.chance(2, 3) { Expr::paren(inner) } else { inner };
+                    let a = self.num_expr(1);
+                    out.push(Stmt::Call(call("sink", vec![Expr::MethodCall { obj: Box::new(recv), name: "get".into(), args: vec![a], sugar: CallSugar::Parens, targs: None }])));
+                }
             }
             6 => {
                 self.idiom("sqrt");
